@@ -2,7 +2,10 @@
 Theorems: Properties_C12.v (every simple graph with positive integer weights, every source).  Tie: the real parmcb::SPTree (lex_dijkstra on the
 4-ary indirect heap, node/child linking, first-in-path labels) for every source vs the extracted LexSPModel, compared EXACTLY (node?, weight,
 predecessor edge, parent, first label per vertex).  Independently of the model every implementation answer is judged against the property text
-(own Dijkstra, tree shape, first labels, reversal symmetry and sub-path closure across all sources)."""
+(own Dijkstra, tree shape, first labels, reversal symmetry and sub-path closure across all sources).
+Weight types: double, int and long long (64-bit integer weights above 2^53: sums that are not doubles, distinct weights that collide as doubles; the
+extracted model works over Z, the kinds L / ALLL are given to it as I / ALLI).  A few graphs with more than 2^16 vertices (wheels whose hub has rim
+neighbours with indices >= 65536) are judged against the property text only (too large for the list-based extracted model)."""
 import json, heapq, os, concurrent.futures as cf
 import lib, gen
 
@@ -10,6 +13,15 @@ PID = "C12"
 THEOREMS = ["Properties_C12.v"]
 LIBS = ["-ltbb", "-lboost_timer"]
 GROUP = "c12"
+ONE = ("T", "TV", "I", "L")            # kinds that build one tree (T/TV double, I int, L long long); ALL / ALLI / ALLL build the trees of all sources
+LLONG_MAX = 2 ** 63 - 1
+BIG_N = 2000                           # above this many vertices a case is judged against the property text only (no model run)
+
+
+def model_line(case):
+    """the extracted model computes over Z: the 64-bit kinds are given to it as the int kinds"""
+    k, _, rest = case.partition(" ")
+    return {"L": "I", "ALLL": "ALLI"}.get(k, k) + " " + rest
 
 
 # ---------------------------------------------------------------------------------------------------------
@@ -30,7 +42,7 @@ def parse_tree(txt):
 def parse_case(case):
     t = case.split()
     kind = t[0]
-    if kind in ("T", "TV", "I"):
+    if kind in ONE:
         s = int(t[1]); n, es, _ = lib.parse_graph_tokens(t, 2)
         return kind, s, n, es
     n, es, _ = lib.parse_graph_tokens(t, 1)
@@ -38,7 +50,7 @@ def parse_case(case):
 
 
 def parse_answer(kind, line):
-    if kind in ("T", "TV", "I"): return [parse_tree(line)]
+    if kind in ONE: return [parse_tree(line)]
     parts = line.split(";")
     if parts[0].strip() != "ALL": raise ValueError("bad ALL answer " + line[:80])
     return [parse_tree(p) for p in parts[1:]]
@@ -179,6 +191,56 @@ def tie_family(rng, maxn):
     return g
 
 
+def long_domain_ok(g):
+    """graphs whose weights may be given to the library as `long long`: (m + 4) * sum(w) <= LLONG_MAX (the sufficient no-overflow precondition
+    of gen.int_domain_ok with INT_MAX replaced by LLONG_MAX)"""
+    n, es = g
+    return (len(es) + 4) * sum(w for _, _, w in es) < LLONG_MAX
+
+
+def weigh64(rng, g, style=None):
+    """positive weights for the 64-bit integer instantiation (edge_weight_t = long long), with values ABOVE 2^53 so that (a) sums of a few of them are
+    not representable as doubles, (b) distinct weights collide when rounded to double, (c) (m+4) * sum(w) < 2^63 (no overflow anywhere).  Styles:
+    p53 = 2^53 + {0..8}; p54 = 2^54 + {0..3} (many equal weights; as doubles 2^54, 2^54+1, 2^54+2 are one value); ladder = 2^54 (2^53 when m > 20) + a permutation of
+    0..m-1 (all distinct, groups of four / two collide as doubles, NOT in insertion order); top = 2^b + {0..5} with the largest b the graph allows (up to 2^60);
+    mix = one to three heavy edges 2^b + {0..5} (53 <= b <= 60) among light ones (1..4).  Dense graphs (m > 30) only allow `mix`."""
+    n, es = g; m = max(1, len(es))
+    bmax = 60
+    while bmax > 0 and (m + 4) * m * ((1 << bmax) + 256) >= LLONG_MAX: bmax -= 1
+    style = style or rng.choice(["p53", "p53", "p54", "p54", "ladder", "ladder", "top", "mix"])
+    if (style in ("p53", "top", "ladder") and bmax < 53) or (style == "p54" and bmax < 54): style = "mix"
+    if style == "p53": ws = [(1 << 53) + rng.randint(0, 8) for _ in es]
+    elif style == "p54": ws = [(1 << 54) + rng.randint(0, 3) for _ in es]
+    elif style == "ladder":
+        off = list(range(len(es))); rng.shuffle(off); ws = [(1 << min(54, bmax)) + o for o in off]
+    elif style == "top": ws = [(1 << bmax) + rng.randint(0, 5) for _ in es]
+    else:
+        style = "mix"
+        h = rng.randint(1, min(3, m)); b = 60
+        while b > 40 and (m + 4) * (h * ((1 << b) + 256) + 4 * m) >= LLONG_MAX: b -= 1
+        b = rng.randint(min(53, b), b)
+        heavy = set(rng.sample(range(len(es)), min(h, len(es))))
+        ws = [((1 << b) + rng.randint(0, 5)) if i in heavy else rng.randint(1, 4) for i in range(len(es))]
+    g2 = (n, [(u, v, w) for (u, v, _), w in zip(es, ws)])
+    assert long_domain_ok(g2)
+    return g2, style
+
+
+def big_wheels(rng):
+    """`T s graph` cases on graphs with more than 2^16 vertices, judged against the property text only: a wheel with 65600 vertices (hub + rim, unit
+    weights) plus a triangle, a path of three, a K2 and an isolated vertex.  (a) hub = vertex 0: the root's children / the rim neighbours of a high rim
+    source have indices >= 65536; sources: the hub, a low rim vertex, a rim vertex >= 65536.  (b) hub = vertex 65590, source = a low rim vertex: the
+    first label of nearly every vertex is the hub.  A wheel has depth <= 2, so lex_dijkstra's per-label vertex sets stay tiny."""
+    W = 65600; n = W + 9
+    def wheel(hub):
+        rim = [v for v in range(W) if v != hub]
+        es = [(hub, v, 1) for v in rim] + [(rim[i], rim[(i + 1) % len(rim)], 1) for i in range(len(rim))]
+        es += [(W, W + 1, 1), (W + 1, W + 2, 1), (W, W + 2, 1), (W + 3, W + 4, 2), (W + 4, W + 5, 3), (W + 6, W + 7, 1)]
+        return gen.graph_tokens((n, es))
+    a, b = wheel(0), wheel(65590)
+    return ["T 0 " + a, "T %d %s" % (rng.randint(1, 60000), a), "T %d %s" % (rng.randint(65537, W - 2), a), "T %d %s" % (rng.randint(1, 60000), b)]
+
+
 def gen_cases(rng, tier):
     maxn = 14 if tier == "quick" else 40
     N = 330 if tier == "quick" else 3000
@@ -200,6 +262,14 @@ def gen_cases(rng, tier):
             for g in gen.all_graphs(n):
                 g2, _ = gen.weigh(rng, g, rng.choice(["unit", "ties"]))
                 cases.append("ALL " + gen.graph_tokens(g2))
+    # 64-bit integer weights above 2^53 (long long): ALLL / L (generated last: the double / int stream above is unchanged)
+    for i in range(80 if tier == "quick" else 700):
+        g = tie_family(rng, maxn) if rng.random() < 0.5 else gen.structural(rng, maxn)
+        while g[0] > maxn: g = gen.structural(rng, maxn)
+        g, style = weigh64(rng, g)
+        cases.append("ALLL " + gen.graph_tokens(g))
+        if g[0] > 0 and rng.random() < 0.3:
+            cases.append("L %d %s" % (rng.randrange(g[0]), gen.graph_tokens(g)))
     return cases
 
 
@@ -227,9 +297,11 @@ def check(tier, seed):
     c = lib.Check(PID, tier, seed, THEOREMS)
     maxn = 14 if tier == "quick" else 40
     c.rule = ("graphs n <= %d from tie-heavy families (unit/small-weight grids, hypercubes, K_ab, wheels, K_n, Petersen, cycles, theta) and the structured + random "
-              "families of gen.structural (forests, disconnected, isolated vertices), weights unit/ties/wide/pow2 (double) and unit/ties/wide (int); for every graph "
+              "families of gen.structural (forests, disconnected, isolated vertices), weights unit/ties/wide/pow2 (double), unit/ties/wide (int) and 64-bit weights above 2^53 "
+              "(long long: 2^53+r, 2^54+{0..3}, 2^54+permutation, 2^b+r up to b = 60, heavy/light mixes; (m+4)*sum(w) < 2^63); for every graph "
               "the trees of ALL sources (built in a std::vector as the algorithms do), plus single trees; exact comparison with the model and an independent judge "
-              "(distances, tree shape, first labels, reversal symmetry, sub-path closure); distinct by md5; non-trivial = the graph has a cycle") % maxn
+              "(distances, tree shape, first labels, reversal symmetry, sub-path closure); plus four single trees on wheels with 65609 vertices (judge only); "
+              "distinct by md5; non-trivial = the graph has a cycle") % maxn
     c.step_prove()
     ok = c.step_model(GROUP)
     exe = c.harness(name="c12", srcs=["c12.cpp"], libs=LIBS)
@@ -238,15 +310,27 @@ def check(tier, seed):
         c.extra["corpus_cases"] = len(cases)
         cases += gen_cases(c.rng, tier)
         io = lib.run_lines([exe], cases)
-        mo = lib.run_model("c12", cases, group=GROUP)
+        mo = lib.run_model("c12", [model_line(cs) for cs in cases], group=GROUP)
         verdicts = judge_all(cases, io)
-        # a long history of SPTree constructions by ONE thread (state surviving between calls); judged where it differs from the model
+        # graphs with more than 2^16 vertices: judged against the property text only (one process each, in parallel)
         import random
+        bigs = big_wheels(random.Random(seed * 7919 + 1212))
+        with cf.ThreadPoolExecutor(max_workers=len(bigs)) as ex:
+            bio = [r[0] for r in ex.map(lambda b: lib.run_lines([exe], [b], par=1, timeout=600), bigs)]
+        with cf.ProcessPoolExecutor(max_workers=len(bigs)) as ex:
+            bverd = list(ex.map(judge, bigs, bio))
+        c.extra["big_graphs"] = [int(b.split()[2]) for b in bigs]
+        for b, o, why in zip(bigs, bio, bverd):
+            c.count(b[:200], True, bucket="big T")
+            if why:
+                c.violation("shortest-path trees on a graph with %s vertices (source %s): %s" % (b.split()[2], b.split()[1], why[:300]),
+                            {"component": "c12", "case": b, "impl": o[:2000], "judge_only": True}, True)
+        # a long history of SPTree constructions by ONE thread (state surviving between calls); judged where it differs from the model
         nshort, nh = len(cases), (70000 if tier == "quick" else 140000)
         hist = long_history(random.Random(seed * 7919 + 12), nh)
         c.extra["long_history_calls"] = nh
         io_h = lib.run_lines([exe], hist, par=1)
-        mo_h = lib.run_model("c12", hist, group=GROUP)
+        mo_h = lib.run_model("c12", hist, group=GROUP)      # (T kinds only)
         cases, io, mo = cases + hist, io + io_h, mo + mo_h
         verdicts = list(verdicts) + [judge(hist[j], io_h[j]) if io_h[j] != mo_h[j] else None for j in range(nh)]
         bad = []
@@ -276,7 +360,7 @@ def check(tier, seed):
         for i in sorted(extra, key=lambda j: len(cases[j]))[:2]:
             c.violation("shortest-path trees: " + verdicts[i], {"component": "c12", "case": cases[i], "impl": io[i]}, True)
     return c.finish(
-        assumptions=["exact domain: positive integer-valued weights whose path sums are exactly representable (double) / do not overflow (int); closed_plus is then the addition",
+        assumptions=["exact domain: positive integer-valued weights whose path sums are exactly representable (double) / do not overflow (int, long long); closed_plus is then the addition",
                      "boost::out_edges / vertices of adjacency_list<vecS,vecS,undirectedS> iterate in insertion order; std::set<size_t> and std::set_difference behave as the sorted duplicate-free lists of the model",
                      "boost::d_ary_heap_indirect<.,4,...> behaves as HeapModel.v (sift-up while strictly smaller, leftmost smallest child)"],
         explanation="Every per-vertex field of every tree (node?, weight, predecessor edge, parent, first label; value-initialised first label 0 for vertices without node) is compared exactly "
@@ -297,9 +381,10 @@ def replay(path):
         i = lib.run_lines([exe], hist, par=1)[-1]
     else:
         i = lib.run_lines([exe], [line], par=1)[0]
-    m = lib.run_model("c12", [line], par=1, group=GROUP)[0]
+    big = r.get("judge_only") or int(line.split()[2 if line.split()[0] in ONE else 1]) > BIG_N      # too large for the list-based model: property text only
+    m = i if big else lib.run_model("c12", [model_line(line)], par=1, group=GROUP)[0]
     why = judge(line, i)
-    print("case :", line); print("impl :", i[:2000]); print("model:", m[:2000]); print("judge:", why)
+    print("case :", line[:2000]); print("impl :", i[:2000]); print("model:", "(not run: judged against the property text only)" if big else m[:2000]); print("judge:", why)
     if why or m != i:
         print("VIOLATION property=%s replay=%s" % (PID, path)); return 1
     return 0
